@@ -231,21 +231,6 @@ pub proof fn lemma_rpw_ge_p2(r: nat, k: nat)
 }
 
 
-/// big-endian (Horner) value of the first k digits
-pub open spec fn valbe(s: Seq<u8>, radix: nat, k: nat) -> nat
-    decreases k
-{
-    if k == 0 { 0 } else { valbe(s, radix, (k - 1) as nat) * radix + (s[k - 1] as nat) }
-}
-
-pub proof fn lemma_valbe_ext(s: Seq<u8>, t: Seq<u8>, radix: nat, k: nat)
-    requires forall|i: int| 0 <= i < k ==> s[i] == t[i]
-    ensures valbe(s, radix, k) == valbe(t, radix, k)
-    decreases k
-{
-    if k > 0 { lemma_valbe_ext(s, t, radix, (k - 1) as nat); }
-}
-
 pub proof fn lemma_valbe_bound(s: Seq<u8>, radix: nat, k: nat)
     requires radix >= 2, k <= s.len(), forall|i: int| 0 <= i < k ==> (#[trigger] s[i] as nat) < radix
     ensures valbe(s, radix, k) < rpw(radix, k)
